@@ -804,6 +804,11 @@ func (in *Inst) CompareTree(fs hackpadfs.FS, exp *tla.Value, call, tr *tla.Value
 			if !seen[b] {
 				seen[b] = true
 				add(cfg.PropWF, "wf "+b, describe(tree))
+				// a listing that misses a child, lists one twice or lists what cannot be stat-ed is also a listing defect (C16)
+				if cfg.PropList != "" && cfg.PropList != "-" && cfg.PropList != cfg.PropWF &&
+					(strings.HasPrefix(b, "hidden-entry") || strings.HasPrefix(b, "listing-duplicate") || strings.HasPrefix(b, "listed-entry")) {
+					add(cfg.PropList, "list "+b, describe(tree))
+				}
 			}
 		}
 	}
